@@ -22,7 +22,7 @@ const (
 	ceFollow = 13
 )
 
-var ceCodes = []int16{ErrNotLeaderForPartition, ErrLeaderNotAvailable, ErrRequestTimedOut, ErrOffsetOutOfRange, ErrUnknownTopicOrPartition, ErrNotEnoughReplicas, ErrTopicAuthorizationFailed, 999}
+var ceCodes = []int16{ErrNotLeaderForPartition, ErrLeaderNotAvailable, ErrRequestTimedOut, ErrOffsetOutOfRange, ErrUnknownTopicOrPartition, ErrNotEnoughReplicas, ErrTopicAuthorizationFailed, 999, 35}
 
 // faults: 0..len(codes)-1 = kafka error code in the response; then framing faults
 var ceFraming = []string{"cut-mid", "garbage-size", "wrong-correlation-id"}
